@@ -7,17 +7,17 @@ import os
 VERIF = os.path.dirname(os.path.dirname(os.path.abspath(__file__)))
 
 CLAIMED = {
-    'C01': ('Lean 4 theorems about the reader/writer models (content round trip, header round trip, encoding scope) for all documents; codec and JSON behaviour are hypotheses; model tied to the code by a three-way differential run (implementation / compiled Lean model / independent specification serializer) on every check',
+    'C01': ('Lean 4 theorems about the reader/writer models: per-section round trip (header, content, indentation) and the whole-sequence theorem C01_run (simulation between writer state and reader loop state, list induction): for every accepted list of public calls, any block size, readAll of the written bytes = one expected record per call; codec and JSON behaviour are hypotheses (ProgramLaws); model tied to the code by a three-way differential run (implementation / compiled Lean model / independent specification serializer) on every check',
             'theorems take codec laws (round trip of the written text, newline encodings) as explicit hypotheses; see DESIGN.md section 5 C01'),
     'C02': ('Lean 4 theorems: every header the writer model renders is in the specification grammar with sorted options, declared length = exact content length, content ends with the BOM-free newline, indentation prefixes every line; byte-for-byte three-way comparison with an independent serializer written from the specification',
             'codecs / json.dumps are environment parameters; conformance of the real writer rests on the correspondence run'),
     'C03': ('Lean 4 theorems about one reader iteration from any loop state: blank lines before a header are skipped, container / main headers yield container records (main only with a supported version), a conforming content section yields exactly the record the specification describes (header options, content returned by _read_content for exactly length bytes with the nearest declared encoding; diffs own option only), and each catalogue defect (bad version, bad format, unknown line_endings, missing trailing newline, invalid / non-object JSON) is rejected at the designated line; foreign files from a specification-derived generator and their single-defect mutations compared three ways',
-            'header grammar, order, encoding scope, framing and block size are separate theorems (C11, C10, C04, C07, C17); whole-file agreement is decided differentially against harness/specdoc.py'),
+            'whole files: C03_file proves readAll(render doc) = Spec.reading doc for every well-formed specification document (Spec/Document.lean: options in any order, blank lines, LF or CRLF headers, declared or detected line endings, any indent) under codec / JSON laws at the values that occur; agreement of CPython codecs with those laws and of harness/specdoc.py with Spec.reading is differential'),
     'C04': ('Lean 4 theorems (induction over every nested container history): reader and writer stacks equal the specification (nearest declaring ancestor), siblings never leak, diffs never inherit; exhaustive small-scope correspondence on reader and writer',
             'stack updates extracted as Reader.pushEnc / Writer.pushFrame mirror reader.py:252-266 and writer.py:452-460 (validated differentially)'),
     'C05': ('Lean 4 theorems about the object-model models: to_bytes is the streaming writer run on the tree\'s call sequence (hence canonical by C02) and raises the first failure in document order, falsy contents are skipped, the loader rebuilds the shape (changes / files per change) for every record list, carries options verbatim minus length, and fails only with library errors (or the D13b TypeError); random trees through the public API against to_bytes / from_bytes with an independently written normalisation as oracle',
-            'the whole write->parse equality composes these with the per-section round trip of C01 and is decided differentially; known finding D25 (empty-string option values)'),
-    'C06': ('same Lean development as C05 (Dom.toBytes / Dom.fromBytes) plus the D14 witness; canonical files (streaming writer output) must re-serialise byte-identically, foreign files from the specification generator must re-serialise to a fixed point with the same contents; model vs implementation on from_bytes and on to_bytes of the loaded tree',
+            'whole trees: C05_tree_roundtrip proves fromBytes(toBytes t) = the structurally defined normalised tree under ProgramLaws of the tree\'s call list (built on C01_run); that CPython codecs / json satisfy the laws is differential; known finding D25 (empty-string option values)'),
+    'C06': ('same Lean development as C05 (Dom.toBytes / Dom.fromBytes) plus C06_tree_fixed_point / C06_parse_serialise (re-serialising the parsed tree of a library-written file gives the identical bytes, under ReLaws) and the D14 witness; canonical files (streaming writer output) must re-serialise byte-identically, foreign files from the specification generator must re-serialise to a fixed point with the same contents; model vs implementation on from_bytes and on to_bytes of the loaded tree',
             'known finding D14: foreign files with options the writer has no parameter for, or without any effective encoding, cannot be re-serialised'),
     'C07': ('Lean 4 theorems for every byte string and every cut point: content is framed by its declared length; with the length check switched on (model switch) the records of a truncated file are a prefix of the intact file records; the code as it is yields at most one extra short-read record (D12 witness proved in Lean and replayed every run); every truncation point of generated files against the real reader',
             'known finding D12 (short reads) is pinned by the unedited test-suite; classifier uses an instrumented stream'),
